@@ -42,3 +42,14 @@ claim("C05",
       "all histories is not decided.",
       "Trusts the T-cmp rows 13/14 (invariant read off merger_iter_next: after next returns K all heads are beyond K), loop bound 1 for the "
       "per-source loops, and the access-path aliasing of the evaluator.")
+
+claim("C04",
+      "typestate over abstract paths of merger_iter_next (Fresh/Consumed/Refilled per head entry), sentinel rule on key length, decision tables of the comparator and heap sites",
+      "Decides per path: a failed merge returns failure before any further consumption; every head entry is consumed exactly once before "
+      "its refill, a successful refill is re-sifted, success is returned only after consuming an entry; heads are folded iff keys are equal; "
+      "no branch depends on the length of the pending key (the empty key is legal); the comparator orders exhausted entries last, returns the "
+      "key comparison unchanged and consults dupsort only for equal keys with (a.val,b.val); the three heap comparison sites keep a min-heap; "
+      "the two writer-feeding loops add every yielded entry once and stop at the first refused add. Heap algorithm correctness and fold "
+      "multiplicity over all source families are not decided.",
+      "Trusts loop bound 1 (2 in thorough) for the two nested loops, that user callbacks only write through their arguments, and the "
+      "role recognition of heap operands by index expression ((pos-1)>>1, 2*pos+1, +1).")
